@@ -292,6 +292,9 @@ func (s *Service) GetTmIndexRebuilder() TmIndexRebuilder {
 // Partitions function returns list of partitions with tags, that match to tagsCond with the specific offset and limit in the result
 func (s *Service) Partitions(ctx context.Context, expr *lql.Source, offset, limit int) (*PartitionsInfo, error) {
 	s.logger.Debug("Partitions(): ", expr.String(), " offset=", offset, ", limit=", limit)
+	if offset < 0 || limit < 0 {
+		return nil, fmt.Errorf("negative offset (%d) or limit (%d), expected 0 or greater", offset, limit)
+	}
 
 	var opErr error
 	ts := uint64(0)
